@@ -46,7 +46,7 @@
 (*  R9 a closed-loop interface (both ends the same junction) cannot be     *)
 (*     drawn with one segment: ne = 1 on a mesh with a closed loop is a    *)
 (*     rejected input.  An inconsistent mesh (C09) is a rejected input.    *)
-(*  R10 "changes nothing" = same vertex ids at the same exact positions,   *)
+(*  R10 (not demanded of inputs with a chain, R6) "changes nothing": same ids at the same exact positions,   *)
 (*     same cell ids with the same cycles up to rotation, same set of      *)
 (*     mesh edges as vertex pairs (mesh-edge ids may be renumbered).       *)
 (***************************************************************************)
@@ -198,6 +198,13 @@ C11Raised(b, ne, rse) ==
            THEN [fails |-> {}, kf |-> {"KF_ContractionChain:C11.raised"}, hits |-> {"C11.raised"},
                  rejected |-> FALSE, chain |-> TRUE]
            ELSE [fails |-> {"C11.raised"}, kf |-> {}, hits |-> {"C11.raised"}, rejected |-> FALSE, chain |-> FALSE]
+
+\* R6: the mesh has two contractible two-point interfaces that share an end, and contraction is demanded
+ChainInput(b, ne, rse) ==
+  rse /\ ne >= 2 /\ Consistent(b) = {} /\
+  LET PB == Paths(b)
+      CT == {p \in PB : Len(p) = 2 /\ NCells(b, p[1]) < 3 /\ NCells(b, p[2]) < 3}
+  IN  \E p, q \in CT : q # p /\ ({q[1], q[2]} \cap {p[1], p[2]}) # {}
 
 \* R10: resampling an already resampled mesh changes nothing
 RotEq(s, t) == /\ Len(s) = Len(t)
